@@ -81,6 +81,14 @@ class ParseCheck:
                     found = y
                     break
             res['completion'] = bytes_repr(found) if found is not None else None
+        # O4 beyond the length bound: an input that ends with a newline and is rejected with an error (not 'incomplete') has no accepted
+        # continuation -- tried with the same completion family
+        if s.completions and main[0] in ('soft', 'fatal') and L >= 1 and ex.truth(x[-1] == 10):
+            for y in COMPLETIONS:
+                r2 = parse_summary(w, s.dev, parse(list(x) + list(y)), L + len(y))
+                if r2[0] == 'ok' and r2[1] > L:
+                    res['viol'].append(('O4', f'newline-terminated input is rejected with {main} but its continuation by {bytes_repr(y)} is accepted: {r2}', L, list(y)))
+                    break
         return res
 
     def on_leaf(s, out):
@@ -100,7 +108,7 @@ class ParseCheck:
         if viol:
             wit = model_bytes(ex.path_model(), s.x if out[0] == 'ok' else getattr(s, 'cur', s.x))
             main = out[1]['main'] if out[0] == 'ok' else None
-            rec['violations'] = [{'rule': v[0], 'what': v[1], 'j': v[2], 'input': wit.hex(), 'device': s.dev, 'start': s.start or [],
+            rec['violations'] = [{'rule': v[0], 'what': v[1], 'j': v[2], 'input': (bytes(wit) + bytes(v[3] if len(v) > 3 else [])).hex(), 'device': s.dev, 'start': s.start or [],
                                   'role': role_of(v[0], v[2], main)} for v in viol]
         if len(ex.decisions) and (hash(tuple(map(str, ex.decisions))) % 97 == 0):
             rec['sample'] = bytes_repr(model_bytes(ex.path_model(), s.x))
